@@ -3,6 +3,7 @@ package main
 import (
 	"fmt"
 	"go/token"
+	"go/types"
 	"strings"
 
 	"golang.org/x/tools/go/ssa"
@@ -14,7 +15,8 @@ import (
 // statement about EVERY element of the slice: a Go range over a slice visits the indices 0..len-1 in order, once each.
 // Two obligations per clause:
 //   fn/covers#k/<label>/whole-slice : at loop entry the ranged operand has the base, offset and length of <expr>
-//   fn/covers#k/<label>/not-left-early : no edge from the body (other than the header's exhaustion exit) leaves the loop
+//   fn/covers#k/<label>/not-left-early : on every path that leaves the loop from its body (break, return) instead of
+//                                        through the header's exhaustion exit, the function returns a non-nil error
 
 // rangeLoop recognises the SSA shape of `for i, x := range s` over a slice or array pointer:
 //
@@ -98,6 +100,30 @@ func countedLoop(lp *Loop, cmp *ssa.BinOp, phi *ssa.Phi) (ssa.Value, ssa.Value, 
 	return x, phi, h.Succs[0]
 }
 
+// mapRangeLoop recognises `for k, v := range m` over a map: the header holds the Next of a Range over m and is the
+// only block that leaves the loop when the iteration is exhausted.
+func mapRangeLoop(lp *Loop) ssa.Value {
+	h := lp.Header
+	for _, ins := range h.Instrs {
+		if nx, ok := ins.(*ssa.Next); ok && !nx.IsString {
+			if rg, ok := nx.Iter.(*ssa.Range); ok {
+				if _, isMap := rg.X.Type().Underlying().(*types.Map); isMap {
+					return rg.X
+				}
+			}
+		}
+	}
+	return nil
+}
+
+// loopOfBlock returns the innermost loop whose header is b (nil when b is no loop header).
+func (ex *Exec) loopOrdinalOfHeader(fn *ssa.Function, b *ssa.BasicBlock) (int, bool) {
+	if lp := ex.loopInfo(fn).ByHeader[b]; lp != nil {
+		return baselineLoopOrdinal(fn, lp.Ordinal), true
+	}
+	return 0, false
+}
+
 func (ex *Exec) coverClauses(fr *Frame) []*Clause {
 	if ex.Specs == nil {
 		return nil
@@ -122,7 +148,13 @@ func (ex *Exec) onEdge(st *State, fr *Frame, from, to *ssa.BasicBlock) {
 				idx := ex.asTerm(ex.eval(fr, incr))
 				p := &PtrV{Nil: TFalse, Obj: sv.Obj, Path: append(append([]PathEl(nil), sv.Path...), PathEl{Idx: Add(sv.Off, idx)})}
 				el := ex.load(st, p, sv.Elem)
-				ex.event(st, &Event{Callee: fmt.Sprintf("range.next#%d", baselineLoopOrdinal(fr.Fn, lp.Ordinal)), Args: []Value{sv, idx}, Results: []Value{el}, Instr: from.Instrs[len(from.Instrs)-1], Fn: fr.Fn, Kind: "rangenext"})
+				// range.next#k names loop#k of the function under contract; steps of loops in inlined callees carry
+				// the callee's name as well (they match the pattern range.next, not range.next#k)
+				nm := fmt.Sprintf("range.next#%d", baselineLoopOrdinal(fr.Fn, lp.Ordinal))
+				if len(st.Frames) > 0 && fr != st.Frames[0] {
+					nm += "[in " + shortName(ex.fnName(fr.Fn)) + "]"
+				}
+				ex.event(st, &Event{Callee: nm, Args: []Value{sv, idx}, Results: []Value{el}, Instr: from.Instrs[len(from.Instrs)-1], Fn: fr.Fn, Kind: "rangenext"})
 			}
 		}
 	}
@@ -149,7 +181,10 @@ func (ex *Exec) onEdge(st *State, fr *Frame, from, to *ssa.BasicBlock) {
 		if to == lp.Header && (from == nil || !lp.Body[from]) {
 			ranged, _, _ := rangeLoop(lp)
 			if ranged == nil {
-				ex.specErrorOnce(fmt.Sprintf("%s: covers: loop#%d of %s is not a range over a slice", c.Line, c.Loop, ex.fnName(fr.Fn)))
+				ranged = mapRangeLoop(lp)
+			}
+			if ranged == nil {
+				ex.specErrorOnce(fmt.Sprintf("%s: covers: loop#%d of %s is not a range over a slice or a map", c.Line, c.Loop, ex.fnName(fr.Fn)))
 				continue
 			}
 			var errs []string
@@ -158,18 +193,35 @@ func (ex *Exec) onEdge(st *State, fr *Frame, from, to *ssa.BasicBlock) {
 			cur := ex.eval(fr, ranged)
 			goal := sameSliceTerm(cur, want)
 			if goal == nil {
-				ex.specErrorOnce(fmt.Sprintf("%s: covers %q: not a slice (%s)", c.Line, c.Src, strings.Join(errs, "; ")))
+				ex.specErrorOnce(fmt.Sprintf("%s: covers %q: not a slice or map (%s)", c.Line, c.Src, strings.Join(errs, "; ")))
 				continue
 			}
 			ex.record(st, &Obligation{Name: base + "/whole-slice", Kind: "covers", Goal: goal, Props: c.Props, Fn: fr.Fn.String()})
+			if fr.CoverReached == nil {
+				fr.CoverReached = map[*Clause]bool{}
+			} else {
+				n := make(map[*Clause]bool, len(fr.CoverReached)+1)
+				for k, v := range fr.CoverReached {
+					n[k] = v
+				}
+				fr.CoverReached = n
+			}
+			fr.CoverReached[c] = true
 		}
 		if from != nil && from != lp.Header && lp.Body[from] && !lp.Body[to] {
-			ex.record(st, &Obligation{Name: base + "/not-left-early", Kind: "covers", Goal: TFalse, Props: c.Props, Fn: fr.Fn.String()})
+			// decided when the function returns: leaving early is allowed when the function fails (returns an error)
+			fr.LeftEarly = append(append([]*Clause(nil), fr.LeftEarly...), c)
 		}
 	}
 }
 
 func sameSliceTerm(a, b Value) *Term {
+	if m1, ok := a.(*MapV); ok {
+		if m2, ok := b.(*MapV); ok {
+			return BoolC(m1.Obj == m2.Obj && m1.Obj != nil)
+		}
+		return nil
+	}
 	x, ok1 := a.(*SliceV)
 	y, ok2 := b.(*SliceV)
 	if !ok1 || !ok2 {
@@ -188,4 +240,76 @@ func (ex *Exec) specErrorOnce(msg string) {
 		}
 	}
 	ex.Specs.Errors = append(ex.Specs.Errors, msg)
+}
+
+// checkLeftEarly is called at every return of a frame: a covered loop that was left from its body obliges the
+// function to report an error (its last result); a function without an error result may not leave early at all.
+// errGoal: the function's last result is a non-nil error (false for functions without an error result).
+func errGoal(fr *Frame, res Value) *Term {
+	var last Value = res
+	if t, ok := res.(*TupleV); ok && len(t.E) > 0 {
+		last = t.E[len(t.E)-1]
+	}
+	rs := fr.Fn.Signature.Results()
+	if rs.Len() > 0 && rs.At(rs.Len()-1).Type().String() == "error" {
+		if iv, ok := last.(*IfaceV); ok && iv.ID != nil {
+			return Neq(iv.ID, IntC(0))
+		}
+	}
+	return TFalse
+}
+
+// checkCoverReached is called at every return of a function with covers clauses: a return on a path that never
+// entered the covered loop is allowed only when the function fails or there was nothing to range over (a guard in
+// front of the loop must not let a non-empty collection through unexamined).
+func (ex *Exec) checkCoverReached(st *State, fr *Frame, res Value) {
+	for _, c := range ex.coverClauses(fr) {
+		if fr.CoverReached[c] {
+			continue
+		}
+		var errs []string
+		env := &Env{ex: ex, st: st, names: ex.loopNames(st, fr, nil), errs: &errs}
+		want := env.evalSE(&c.Expr)
+		var empty *Term
+		switch w := want.(type) {
+		case *SliceV:
+			empty = Eq(w.Len, IntC(0))
+		case *MapV:
+			if ms := ex.mapState(st, w); ms != nil && ms.Len != nil {
+				empty = Eq(ms.Len, IntC(0))
+			}
+		}
+		if empty == nil {
+			// the collection does not exist on this path (the call that yields it was not reached): the function
+			// left before there was anything to examine
+			continue
+		}
+		label := c.Label
+		if label == "" {
+			label = "covers"
+		}
+		ex.record(st, &Obligation{Name: fmt.Sprintf("%s/covers#%d/%s/loop-reached", ex.fnName(fr.Fn), c.Loop, label), Kind: "covers",
+			Goal: Or(empty, errGoal(fr, res)), Props: c.Props, Fn: fr.Fn.String()})
+	}
+}
+
+func (ex *Exec) checkLeftEarly(st *State, fr *Frame, res Value) {
+	for _, c := range fr.LeftEarly {
+		label := c.Label
+		if label == "" {
+			label = "covers"
+		}
+		goal := TFalse
+		var last Value = res
+		if t, ok := res.(*TupleV); ok && len(t.E) > 0 {
+			last = t.E[len(t.E)-1]
+		}
+		rs := fr.Fn.Signature.Results()
+		if rs.Len() > 0 && rs.At(rs.Len()-1).Type().String() == "error" {
+			if iv, ok := last.(*IfaceV); ok && iv.ID != nil {
+				goal = Neq(iv.ID, IntC(0))
+			}
+		}
+		ex.record(st, &Obligation{Name: fmt.Sprintf("%s/covers#%d/%s/not-left-early", ex.fnName(fr.Fn), c.Loop, label), Kind: "covers", Goal: goal, Props: c.Props, Fn: fr.Fn.String()})
+	}
 }
